@@ -42,7 +42,8 @@ FILES = [
 ]
 
 KINDS = ['unwrap', 'expect', 'panic', 'unreachable', 'assert', 'debug_assert', 'todo', 'index', 'index_const',
-         'buf_advance', 'buf_copy', 'buf_get', 'split', 'arith', 'shift', 'cast', 'headermap', 'capacity']
+         'buf_advance', 'buf_copy', 'buf_get', 'split', 'arith', 'shift', 'cast', 'headermap', 'capacity', 'buf_put', 'ilog',
+         'slice_move', 'from_static']
 
 KEYWORDS = {'return', 'in', 'if', 'else', 'match', 'as', 'let', 'mut', 'ref', 'move', 'while', 'for', 'loop', 'break',
             'continue', 'where', 'impl', 'dyn', 'fn', 'pub', 'use', 'mod', 'struct', 'enum', 'type', 'const', 'static',
@@ -315,6 +316,14 @@ def scan_file(repo, rel):
                     found.append((pos, 'split'))
                 elif s == 'pow' and prv[1] == '.':
                     found.append((pos, 'arith'))
+                elif re.fullmatch(r'put_(u8|i8|u16|u32|u64|u128|i16|i32|i64|uint|int|bytes)(_le|_ne)?', s) and prv[1] == '.':
+                    found.append((pos, 'buf_put'))      # BufMut::put_uN panics when the destination is full
+                elif s in ('ilog2', 'ilog10', 'ilog', 'isqrt', 'abs', 'div_euclid', 'rem_euclid', 'next_power_of_two') and prv[1] == '.':
+                    found.append((pos, 'ilog'))         # panic on 0 / overflow
+                elif s in ('swap', 'rotate_left', 'rotate_right', 'copy_within', 'truncate', 'split_first', 'chunks', 'chunks_exact', 'windows', 'swap_with_slice') and prv[1] == '.':
+                    found.append((pos, 'slice_move'))
+                elif s == 'from_static' and prv[1] == '::':
+                    found.append((pos, 'from_static'))  # HeaderName / HeaderValue / PathAndQuery::from_static panic on invalid text
                 elif s in ('with_capacity', 'reserve', 'reserve_exact', 'resize'):
                     j = i - 2
                     if prv[1] == '::' and T(j)[1] == 'HeaderMap':
@@ -371,11 +380,11 @@ def scan_file(repo, rel):
         rows.append((rel, fn, kind, counters[key]))
         lines[(rel, fn, kind, counters[key])] = src.line_of(pos)
         owners[fn] = True
-    # fingerprint of every function that owns a row: its whole body, comments stripped, string contents blanked,
+    # fingerprint of every function of the file (rows or not): its whole body, comments stripped, string contents blanked,
     # white space removed.  Changing an operator, an argument or a guard anywhere in such a function changes it.
     prints = []
     for (a, b, nm) in named:
-        if nm in owners:
+        if True:   # EVERY function / macro body of the inventoried files, whether or not it owns a row
             body = re.sub(r'\s+', '', text[a:b + 1])
             h = int(hashlib.sha256(body.encode()).hexdigest()[:15], 16)
             prints.append((rel, nm, h, src.line_of(a)))
